@@ -222,7 +222,9 @@ class SimKernel:
             self.advance(1)
 
     def deliver_chld(self):
-        if not self.chld_pending or self.in_handler:
+        # (a Python-level signal handler can be interrupted by the handler of a later signal, its own included: one level
+        # of nesting is delivered)
+        if not self.chld_pending or self.in_handler >= 2:
             return False
         h = self.handlers.get(_signal.SIGCHLD)
         if h is None:
@@ -316,7 +318,7 @@ class SimKernel:
         z = sorted(p.pid for p in kids if p.st == "zombie")
         z = self.sched.pick_zombie(self, z) if z else None
         if z is None:
-            self.point("wait", 0, 0)
+            self.point("wait", 0, 0)          # (the point after the call: a child may die right after "no child has changed state")
             return 0, 0
         p = self.procs[z]
         p.st = "reaped"
